@@ -2,9 +2,11 @@ package checks
 
 import (
 	"fmt"
+	kvql "github.com/c4pt0r/kvql"
 	"strings"
 	"syscall"
 	"testing"
+	"time"
 
 	"pgregory.net/rapid"
 
@@ -42,6 +44,18 @@ func checkC06(c *c06Case) (msg string, nontrivial bool, labels []string) {
 	q := c.Query
 	start := cpuSeconds()
 	stage := "rejected"
+	// the other public entry point that parses a query text
+	if pan := func() (pan string) {
+		defer func() {
+			if p := recover(); p != nil {
+				pan = fmt.Sprint(p)
+			}
+		}()
+		kvql.BuildExecutor(q)
+		return ""
+	}(); pan != "" {
+		return fmt.Sprintf("BuildExecutor(%q) panicked: %s", q, pan), true, labels
+	}
 	for ci, cfg := range c06Cfgs {
 		if ci >= 2 && len(c.Pairs) == 0 {
 			break
@@ -392,4 +406,82 @@ func TestC06Dynamic(t *testing.T) {
 			}
 		}
 	}
+}
+
+// ---- termination on chains of named fields --------------------------------------
+
+// c06Chain builds `select <first> as a0, a0+a0 as a1, ..., a(n-1)+a(n-1) as an`
+// (integers, so the values wrap around instead of growing): each field uses
+// the previous name twice, a statement of a few hundred bytes with 2^n paths
+// through its names.
+func c06Chain(n int, prefix, suffix string) string {
+	var sb strings.Builder
+	sb.WriteString("select " + prefix + "strlen(key) as a0")
+	for i := 1; i <= n; i++ {
+		fmt.Fprintf(&sb, ", a%d+a%d as a%d", i-1, i-1, i)
+	}
+	sb.WriteString(" " + suffix)
+	return sb.String()
+}
+
+// TestC06Chains: planning and executing such statements must terminate. The
+// work is linear in the statement (well under a millisecond); the deadline of
+// 20 s per statement is four orders of magnitude above that, and exponential
+// behaviour passes it at depth 30 and beyond.
+func TestC06Chains(t *testing.T) {
+	lib.Stats.Exhaustive = true
+	pairs := []lib.Pair{{K: "a", V: "1"}, {K: "ab", V: "2"}, {K: "abc", V: "3"}, {K: "b", V: "4"}}
+	idx := 0
+	for _, n := range []int{2, 6, 12, 20, 30, 40} {
+		last := fmt.Sprintf("a%d", n)
+		groups := "a0"
+		for i := 1; i <= n; i++ {
+			groups += fmt.Sprintf(", a%d", i)
+		}
+		for _, q := range []string{
+			c06Chain(n, "", "where key != ''"),
+			c06Chain(n, "", "where "+last+" >= 0 | key != ''"),
+			c06Chain(n, "key, ", "where key != '' order by "+last+" desc limit 2"),
+			c06Chain(n, "count(1) as c, ", "where "+last+" >= 0 | key != '' group by "+groups),
+			c06Chain(n, "count(1) as c, ", "where key != '' group by "+groups+" order by c"),
+		} {
+			idx++
+			if !lib.Mine(idx) {
+				continue
+			}
+			c := &c06Case{Query: q, Pairs: pairs}
+			lib.Journal("C06", "c06", c)
+			done := make(chan string, 1)
+			go func() {
+				msg, _, _ := checkC06(c)
+				done <- msg
+			}()
+			var msg string
+			select {
+			case msg = <-done:
+			case <-time.After(20 * time.Second):
+				msg = fmt.Sprintf("planning and executing the %d-byte statement %q (a chain of %d named fields) did not terminate within 20 s", len(q), q, n)
+			}
+			lib.Stats.EnumCase(n >= 20, []string{"chain", fmt.Sprintf("chain-depth=%d", n)}, func() any { return map[string]any{"chain_depth": n, "bytes": len(q)} })
+			if msg != "" {
+				fail(t, "C06", "c06chain", msg, c)
+			}
+		}
+	}
+}
+
+func init() {
+	registerReplay("c06chain", func(c *c06Case) string {
+		done := make(chan string, 1)
+		go func() {
+			msg, _, _ := checkC06(c)
+			done <- msg
+		}()
+		select {
+		case msg := <-done:
+			return msg
+		case <-time.After(20 * time.Second):
+			return fmt.Sprintf("planning and executing the %d-byte statement %q did not terminate within 20 s", len(c.Query), c.Query)
+		}
+	})
 }
